@@ -15,6 +15,15 @@ PROPS = {
              "exactly on dyadic rationals. What the statement leaves open is 'ood' in the specification and not judged. Bounded, seeded exploration of programs x "
              "inputs with a model-checked reference: model checking of the reference plus conformance of the implementation.",
         note=_TRUST + "Programs are bounded in size; floats are exact dyadic rationals (no rounding behaviour is checked); integers beyond 2^30 are out of the checked domain."),
+    "C02": dict(
+        claimed=True, level="model_checking",
+        technique="both compiled modules (optimize off/on) judged against the TLA+ language semantics NslSem run by TLC, their IR checked by the TLA+ spec IRWellFormed over all paths, plus direct differential execution of the two modules on the VM; small-scope exhaustive family of statement sequences for the two optimisation passes",
+        text="All statement sequences up to length 3 (quick) / 4 (thorough) over 12 templates that place a store/load pair in front of every kind of user, seeded "
+             "generated programs with every language feature the generator has, and a family of representation-boundary constants are compiled at both levels. "
+             "accept/reject must agree; the two modules are executed on the VM for every input and compared (value, globals, failures); TLC runs NslSem on each "
+             "case, which decides which module is wrong, and IRWellFormed explores all paths of both modules' functions, so an undefined value on a path no input "
+             "takes is reported too.",
+        note=_TRUST + "Compared only when the unoptimised module succeeds. Constants beyond 2^30 are outside NslSem's exact domain and are judged by the differential comparison alone."),
     "C03": dict(
         claimed=True, level="model_checking",
         technique="refinement check against the TLA+ semantics NslSem (FrameIsolation / CallDiscipline as TLC action properties on every behaviour) plus trace check of the real VM: activation sequence recorded by the VM hook compared with the prescribed one, caller frame compared across every call return",
